@@ -87,8 +87,8 @@ def _flen(cfg):
     return {'LLVAR': 2, 'LLLVAR': 3}.get(cfg['field_type'], 0)
 
 
-def ref_bitmap(bits):
-    v = 1 << 127
+def ref_bitmap(bits, bit1=True):
+    v = (1 << 127) if bit1 else 0
     for b in bits:
         v |= 1 << (128 - b)
     return v.to_bytes(16, 'big')
